@@ -168,7 +168,7 @@ def build():
 def find(routine, seeds=2000):
     """-> None or {'routine', 'level', 'seed', 'shown'}"""
     exe, n = build()
-    p = subprocess.run([exe, 'find', routine, str(seeds)], capture_output=True, text=True, timeout=3600)
+    p = subprocess.run([exe, 'find', routine, str(seeds)], capture_output=True, text=True, timeout=600)
     for ln in p.stdout.split('\n'):
         m = re.match(r'^DIFF (\S+) level (\d+) seed (\d+)', ln)
         if m:
